@@ -573,7 +573,7 @@ func ctxErrOnlyWhenDone(c *Ctx, r *Report, rule string, pkgs ...string) {
 			if !ok || !cl.Call.IsInvoke() || cl.Call.Method.Name() != "Err" || typeName(cl.Call.Value.Type()) != "Context" {
 				continue
 			}
-			ctxv := strip(cl.Call.Value)
+			ctxv := through(cl.Call.Value) // (a context captured by a closure lives in a cell: every load of it is the same context)
 			n++
 			k++
 			okArm := false
@@ -588,7 +588,7 @@ func ctxErrOnlyWhenDone(c *Ctx, r *Report, rule string, pkgs ...string) {
 						continue
 					}
 					dc, isC := strip(st.Chan).(*ssa.Call)
-					if !isC || !dc.Call.IsInvoke() || dc.Call.Method.Name() != "Done" || strip(dc.Call.Value) != ctxv {
+					if !isC || !dc.Call.IsInvoke() || dc.Call.Method.Name() != "Done" || through(dc.Call.Value) != ctxv {
 						continue
 					}
 					// blocks guarded by `index == si`
@@ -616,7 +616,7 @@ func ctxErrOnlyWhenDone(c *Ctx, r *Report, rule string, pkgs ...string) {
 					}
 					for _, pr := range [][2]ssa.Value{{b.X, b.Y}, {b.Y, b.X}} {
 						ec, isC := strip(pr[0]).(*ssa.Call)
-						if isC && isNilConst(pr[1]) && ec.Call.IsInvoke() && ec.Call.Method.Name() == "Err" && strip(ec.Call.Value) == ctxv && guardedBy(cl.Block(), ifi, b.Op == token.NEQ) {
+						if isC && isNilConst(pr[1]) && ec.Call.IsInvoke() && ec.Call.Method.Name() == "Err" && through(ec.Call.Value) == ctxv && guardedBy(cl.Block(), ifi, b.Op == token.NEQ) {
 							okArm = true
 						}
 					}
@@ -1549,7 +1549,7 @@ func derivedFromNode(v ssa.Value, n ssa.Value, depth int) bool {
 	if isNilConst(v) {
 		return true
 	}
-	if depth > 4 {
+	if depth > 9 {
 		return false
 	}
 	switch y := v.(type) {
@@ -1705,6 +1705,23 @@ func errorTransformersPreserve(c *Ctx, r *Report, rule string, pkgs ...string) {
 		n++
 		bad := ""
 		for _, rt := range returnsOf(g) {
+			// a return that is only reached when the argument is known to be nil owes nothing
+			argNil := false
+			for _, ifi := range allIfs(g) {
+				b, isB := ifi.Cond.(*ssa.BinOp)
+				if !isB || (b.Op != token.EQL && b.Op != token.NEQ) {
+					continue
+				}
+				if (strip(b.X) == ssa.Value(p) && isNilConst(b.Y)) || (strip(b.Y) == ssa.Value(p) && isNilConst(b.X)) {
+					nilSide := succOn(ifi, b.Op == token.EQL)
+					if nilSide != succOn(ifi, b.Op != token.EQL) && len(nilSide.Preds) == 1 && nilSide.Dominates(rt.Return.Block()) {
+						argNil = true
+					}
+				}
+			}
+			if argNil {
+				continue
+			}
 			for _, o := range origins(rt.Results[0], originOpt{}) {
 				o = strip(o)
 				switch {
